@@ -4,7 +4,7 @@
 (* one initial state; the invariants are the theorem.  The same module     *)
 (* emits the cases for the conformance replay (invariant Emit).            *)
 (*                                                                         *)
-(* A body is If(cond, tb, eb) with tb, eb drawn from Bodies(Depth - 1);    *)
+(* A body is If(cond, tb, eb) with tb, eb leaves or if/else over leaves;   *)
 (* the universes differ in the number of parameters, the leaves and the    *)
 (* depth:                                                                  *)
 (*   wide*   three parameters a b n, depth 1, every choice of two         *)
@@ -69,11 +69,9 @@ DeepLeaves ==
 (* nest: f(a, n) calls g(x, y) *)
 NestConds ==
   { Cond("<=", At(A2), 0), Cond("<", G(A1, A2), 2), Cond("!=", G(A2, A1), 1) }
-  \cup (IF Small THEN {} ELSE { Cond("==", G(A2, K(1)), 2), Cond("<=", G(A1, A1), 1) })
 NestTail == { <<G(A1, A2), Minus(A2, K(1))>>, <<Plus(A1, K(1)), Minus(A2, K(1))>>, <<G(A2, A1), Minus(A2, K(1))>>, <<At(A2), G(A1, K(1))>> }
-            \cup (IF Small THEN {} ELSE { <<At(A2), At(A1)>>, <<G(A2, K(2)), G(A1, K(0))>> })
 NestLeaves ==
-  { Ret(At(A1)), Ret(G(A1, A2)) } \cup (IF Small THEN {} ELSE { Ret(At(K(0))) })
+  { Ret(At(A1)), Ret(G(A1, A2)) }
   \cup { TailCall(as) : as \in NestTail }
   \cup { Discard(<<At(A1), Minus(A2, K(1))>>, At(K(1))), Bind(<<G(A1, K(1)), Minus(A2, K(1))>>, Plus(R, K(1))) }
 \* g(x, y): tail-recursive (or not) helpers; small enough to be inlined
@@ -87,62 +85,70 @@ NestG ==
 
 Conds  == IF Wide THEN WideConds ELSE IF Deep THEN DeepConds ELSE NestConds
 Leaves == IF Wide THEN WideLeaves ELSE IF Deep THEN DeepLeaves ELSE NestLeaves
-Depth  == IF Deep THEN 2 ELSE IF Nest /\ ~Small THEN 2 ELSE 1
 GFuns  == IF Nest THEN NestG ELSE {NoG}
 Prints == IF Wide THEN {0, 1} ELSE IF Deep THEN {0, 2} ELSE {0, 1}
-\* in the nest universes only one side is nested (the other is a leaf): the space stays small
-RECURSIVE Bodies(_)
-Bodies(d) == IF d = 0 THEN Leaves ELSE Bodies(d - 1) \cup { If(c, t, e) : c \in Conds, t \in Bodies(d - 1), e \in Bodies(d - 1) }
-SubT == IF Nest THEN Leaves ELSE Bodies(Depth - 1)
-SubE == Bodies(Depth - 1)
+Depth1 == Leaves \cup { If(c, t, e) : c \in Conds, t \in Leaves, e \in Leaves }
+IsLeaf(b) == b.kind # "if"
+RECURSIVE HasBase(_)
+HasBase(b) == CASE b.kind = "ret" -> TRUE [] b.kind = "if" -> HasBase(b.t) \/ HasBase(b.e) [] OTHER -> FALSE
+\* the two sides of the root: wide = leaves; deep = depth <= 1 on both sides (small: on one side);
+\* nest = depth <= 1 on one side (small: leaves)
+Flat == Wide \/ (Nest /\ Small)
+SubT == IF Flat THEN Leaves ELSE Depth1
+SubE(t) == IF Flat THEN Leaves ELSE IF Deep /\ ~Small THEN Depth1 ELSE IF IsLeaf(t) THEN Depth1 ELSE Leaves
 
 \* argument tuples: all small ones for model checking, a fixed handful for the replay
 Args ==
   IF Wide THEN (IF Gen THEN << <<1, 2, 0>>, <<1, 2, 1>>, <<1, 2, 2>>, <<2, 0, 3>>, <<0, 1, 2>> >>
+                ELSE IF Small THEN SetToSeq({ <<xy[1], xy[2], z>> : xy \in {<<1, 2>>, <<2, 1>>, <<0, 1>>, <<2, 2>>}, z \in 0..3 })
                 ELSE SetToSeq({ <<x, y, z>> : x \in 0..2, y \in 0..2, z \in 0..3 }))
-  ELSE (IF Gen THEN << <<1, 0>>, <<1, 1>>, <<0, 2>>, <<2, 3>>, <<3, 2>> >> ELSE SetToSeq({ <<x, y>> : x \in 0..3, y \in 0..3 }))
+  ELSE (IF Gen THEN << <<1, 0>>, <<1, 1>>, <<0, 2>>, <<2, 3>>, <<3, 2>> >>
+        ELSE SetToSeq({ <<x, y>> : x \in 0..3, y \in 0..3 }))
 
-VARIABLES cond, tb, eb, pr, gf
-vars == <<cond, tb, eb, pr, gf>>
+(* One body per state.  The initial states fix the condition, the printed parameter, g and the first
+   branch; the step chooses the second branch and evaluates the three meanings for every argument
+   tuple (so that the work is done by TLC's workers and a counterexample shows the results). *)
+VARIABLES cond, tb, eb, pr, gf, phase, res
+vars == <<cond, tb, eb, pr, gf, phase, res>>
 Body == If(cond, tb, eb)
 Program == [f |-> Fun(NP, pr, Body), g |-> gf]
+Results(p) ==
+  LET pl == Lowered(p)
+      pm == Rewritten(p)
+  IN [i \in 1..Len(Args) |-> [ref |-> Ref(p, Args[i]), low |-> RunIR(pl, Args[i]), rw |-> RunIR(pm, Args[i])]]
+\* a body without a Ret leaf never returns, one without a self call is not the rewrite's business
+Interesting(b) == HasBase(b) /\ (Nest => CallsG(b)) /\ (Gen => HasSelfCall(b))
 
-Init == /\ cond \in Conds /\ tb \in SubT /\ eb \in SubE /\ pr \in Prints /\ gf \in GFuns
-        /\ (Nest => CallsG(If(cond, tb, eb)))
-        /\ (Gen => HasSelfCall(If(cond, tb, eb)))
-Next == UNCHANGED vars
+Init == /\ cond \in Conds /\ tb \in SubT /\ pr \in Prints /\ gf \in GFuns
+        /\ eb = Ret(At(K(0))) /\ phase = 1 /\ res = <<>>
+Next == /\ phase = 1 /\ phase' = 2
+        /\ eb' \in SubE(tb)
+        /\ Interesting(If(cond, tb, eb')) = TRUE     \* (as a value: a disjunction in an action would branch)
+        /\ res' = Results([f |-> Fun(NP, pr, If(cond, tb, eb')), g |-> gf])
+        /\ UNCHANGED <<cond, tb, pr, gf>>
 Spec == Init /\ [][Next]_vars
 
 -----------------------------------------------------------------------------
 (* The theorem *)
 \* the rewritten loop returns and prints exactly what the recursion returns and prints
-RewriteSound ==
-  LET p == Program
-      pm == Rewritten(p)
-  IN \A i \in 1..Len(Args) : SoundAt(p, pm, Args[i])
+RewriteSound == phase = 2 => \A i \in 1..Len(Args) : res[i].ref.ok => res[i].rw = res[i].ref
 \* a body that is not recognised is handed back unchanged
 UnrecognisedLeftAlone ==
-  LET F == LowerFun("f", Program.f)
-      rw == RewriteFun(F)
-  IN ~rw.recognised => rw.fn = F
+  phase = 2 => LET F == LowerFun("f", Program.f)
+                   rw == RewriteFun(F)
+               IN ~rw.recognised => rw.fn = F
 \* recognised are exactly the bodies with a self call in tail position
-RecognisedIffTail == Recognised("f", Program.f) <=> HasTail(Body)
-\* model self-checks
-LoweringFaithful ==
-  LET p == Program
-      pl == Lowered(p)
-  IN \A i \in 1..Len(Args) : FaithfulAt(p, pl, Args[i])
-FuelExact ==
-  LET p == Program
-      pm == Rewritten(p)
-  IN \A i \in 1..Len(Args) : FuelExactAt(p, pm, Args[i])
+RecognisedIffTail == phase = 2 => (Recognised("f", Program.f) <=> HasTail(Body))
+\* model self-checks: the IR handed to the rewrite means what the source means, and the budgets of
+\* recursion and loop correspond exactly (a run diverges in one iff it does in the other)
+LoweringFaithful == phase = 2 => \A i \in 1..Len(Args) : res[i].low = res[i].ref
+FuelExact == phase = 2 => \A i \in 1..Len(Args) : res[i].rw.ok = res[i].ref.ok
 
 -----------------------------------------------------------------------------
 (* Cases for the conformance replay *)
 Case ==
-  LET p == Program IN
-  [np |-> NP, f |-> p.f, g |-> p.g, usesg |-> CallsG(Body), rec |-> Recognised("f", p.f),
+  [np |-> NP, f |-> Program.f, g |-> Program.g, usesg |-> CallsG(Body), rec |-> Recognised("f", Program.f),
    calls |-> [i \in 1..Len(Args) |->
-                LET r == Ref(p, Args[i]) IN [args |-> Args[i], ok |-> r.ok, lines |-> IF r.ok THEN Lines(r) ELSE <<>>]]]
-Emit == PrintT(<<"BEHAVIOUR", ToJson(Case)>>)
+                [args |-> Args[i], ok |-> res[i].ref.ok, lines |-> IF res[i].ref.ok THEN Lines(res[i].ref) ELSE <<>>]]]
+Emit == phase = 2 => PrintT(<<"BEHAVIOUR", ToJson(Case)>>)
 =============================================================================
